@@ -10,6 +10,7 @@ sequence.  Each operation is applied to the real ParticleArray and to the
 model; after every operation all invariants of DESIGN C06 are checked on
 every live array.
 """
+import os
 import pickle
 
 from hypothesis import strategies as st
@@ -17,11 +18,18 @@ from hypothesis import strategies as st
 from vlib.hyp import Failure, Outcome, Stats, search, derive_seed
 
 RULE = ('cases = 1-2 initial ParticleArrays (0-12 particles; built by the '
-        'constructor, get_particle_array or add_property; properties of the '
-        'five C types with strides 1-4, constants, tags Local/Remote/Ghost) '
+        'constructor (dict, plain-sequence, one-value-for-all, ndarray and '
+        '2-d forms), by add_property or by one of the eight '
+        'utils.get_particle_array* helpers; properties of the '
+        'five C types with strides 1-4, constants of 1-9 values given as '
+        'scalars / lists / nested lists / ndarrays, tags '
+        'Local/Remote/Ghost incl. arrays without Local particles) '
         'plus a list of <= 30 (quick) / 60 (thorough) abstract operations '
-        'over the public API (incl. utils.get_particles_info + '
-        'create_dummy_particles replicas; clones/extracts/replicas may '
+        'over the public API (incl. clear, get/attribute reads of several '
+        'names, update_min_max, renaming, lb props, copy/deepcopy/pickle '
+        'with the original kept alive, utils.get_particles_info + '
+        'create_dummy_particles replicas of one or both arrays; '
+        'clones/extracts/copies/replicas may '
         'replace the second array), interpreted against the current model '
         'state. '
         'Non-trivial = the sequence contains a structural change of the '
@@ -51,13 +59,35 @@ ASSUMPTIONS = [
     'a silent overrun that stays inside a carray\'s spare capacity (16 '
     'elements minimum) is not observable; larger ones surface as crashes '
     'through the journal',
+    'clear(): the docstring says "all data"; that tag/pid/gid remain, that '
+    'the default tag is kept and that no property keeps a stride or a place '
+    'in the output list is claimed; whether constants, the output list of '
+    'tag/pid/gid and lb_props survive is adopted as found',
+    'get_particle_array* helpers: the property list of a family is read '
+    'from the array (default properties must be there); types, strides, '
+    'defaults, given values and given constants are claimed, constants a '
+    'helper adds on its own are adopted as found',
+    'update_min_max: minimum/maximum are compared only for non-empty arrays',
 ]
 ESSENTIAL_LABELS = {'all': ['strided_removed_readded', 'zero_particles',
+                            'clear_with_strided_or_listed',
+                            'rigid_body_id_with_tags',
                             'non_double', 'mixed_tags',
                             'append_differing_props', 'two_arrays',
                             'pickle', 'struct_then_size', 'resize_grow',
                             'add_property_existing', 'extract_to_dest',
-                            'strided_redeclared_plain']}
+                            'strided_redeclared_plain',
+                            # coverage audit
+                            'op:clear', 'get_multi', 'get_strided_real',
+                            'via:family', 'via:plain', 'ctor_plain',
+                            'ctor_broadcast', 'data_2d', 'no_local',
+                            'const_nested', 'const_long', 'const_scalar',
+                            'dummy_two_arrays', 'copy_kept', 'copy_module',
+                            'family_sys_props', 'op:update_min_max',
+                            'renamed', 'copy_over_two_pairs',
+                            'remove_property_missing',
+                            'add_particles_ndarray', 'index_block', 'positional',
+                            'default_fractional']}
 
 TYPES = ['double', 'float', 'int', 'long', 'unsigned int']
 FLOATY = ('double', 'float')
@@ -76,7 +106,23 @@ OPS = ['add_particles', 'remove_particles', 'remove_tagged_particles',
        'write_tag_align', 'align_particles', 'empty_clone',
        'copy_properties', 'copy_over_properties', 'set_to_zero', 'pickle',
        'output_arrays', 'get_property_arrays', 'ensure_properties',
-       'dummy_replica', 'set_pid']
+       'dummy_replica', 'set_pid',
+       # added by the coverage audit: methods / keyword variants the list
+       # above never reached
+       'clear', 'get', 'update_min_max', 'set_name', 'set_num_real',
+       'lb_props']
+# the get_particle_array* family of pysph.base.utils (initial arrays)
+FAMILY = {'gpa': 'get_particle_array',
+          'wcsph': 'get_particle_array_wcsph',
+          'iisph': 'get_particle_array_iisph',
+          'rigid': 'get_particle_array_rigid_body',
+          'tvf_fluid': 'get_particle_array_tvf_fluid',
+          'tvf_solid': 'get_particle_array_tvf_solid',
+          'gasd': 'get_particle_array_gasd',
+          'swe': 'get_particle_array_swe'}
+ESSENTIAL_LABELS['all'] += ['via:' + _f for _f in sorted(FAMILY)]
+FAMILY_INT = ('tag', 'pid', 'body_id', 'parent_idx', 'closest_idx')
+NAMES = ['pa0', 'pa1', 'fluid', 'solid']
 # structural ops are drawn more often (stale bookkeeping is the target)
 WEIGHTED = OPS + ['add_property', 'add_property', 'remove_property',
                   'remove_property', 'add_particles', 'extend',
@@ -87,10 +133,30 @@ WEIGHTED = OPS + ['add_property', 'add_property', 'remove_property',
 small = st.integers(0, 9)
 
 
+const_value = st.one_of(
+    st.lists(small, min_size=1, max_size=3),
+    st.lists(small, min_size=1, max_size=3).map(
+        lambda l: [v + 0.5 for v in l]),
+    # longer ones, scalars, nested (ravelled) ones
+    st.lists(small, min_size=4, max_size=9).map(
+        lambda l: [v + 0.5 for v in l]),
+    small.map(lambda v: v + 0.5),
+    st.lists(st.lists(small, min_size=2, max_size=2), min_size=2,
+             max_size=3),
+    st.lists(st.lists(small.map(lambda v: v + 0.5), min_size=3, max_size=3),
+             min_size=3, max_size=3))
+
+
 @st.composite
-def array_spec(draw, idx):
+def array_spec(draw, idx, fam=None):
     n = draw(st.sampled_from([0, 0, 1, 2, 3, 4, 5, 7, 9, 12]))
-    via = draw(st.sampled_from(['ctor', 'ctor', 'add', 'gpa']))
+    via = draw(st.sampled_from(['ctor', 'ctor', 'ctor', 'add', 'add', 'gpa',
+                                'gpa', 'plain', 'plain', 'family']))
+    if via == 'family':
+        # every shard has a helper of its own, so that each one is met in
+        # every run
+        via = draw(st.sampled_from(sorted(k for k in FAMILY if k != 'gpa')
+                                   + [fam or 'wcsph'] * 7))
     names = draw(st.lists(st.sampled_from(POOL), max_size=5, unique=True))
     props = []
     for nm in names:
@@ -98,45 +164,62 @@ def array_spec(draw, idx):
             name=nm, type=draw(st.sampled_from(TYPES)),
             stride=draw(st.sampled_from([1, 1, 2, 3, 4])),
             default=draw(st.one_of(st.none(), small)),
-            data=draw(st.booleans()), salt=draw(st.integers(0, 50))))
-    tagmode = draw(st.sampled_from(['none', 'mixed', 'mixed', 'local']))
+            data=draw(st.booleans()), salt=draw(st.integers(0, 50)),
+            # constructor only: one value for all particles / ndarray / 2-d
+            form=draw(st.sampled_from(['list', 'list', 'bcast', 'ndarray',
+                                       '2d']))))
+        if props[-1]['type'] in FLOATY and props[-1]['default'] is not None \
+                and draw(st.booleans()):
+            props[-1]['default'] += 0.5
+    if via == 'plain':
+        # the short constructor form needs double properties of stride 1
+        # with values: make most of them so
+        for p in props:
+            if draw(st.integers(0, 3)) > 0:
+                p.update(type='double', stride=1, default=None, data=True)
+    tagmode = draw(st.sampled_from(['none', 'mixed', 'mixed', 'local',
+                                    'ghost']))
     tags = None
     if tagmode == 'mixed':
         tags = [draw(st.integers(0, 2)) for _ in range(n)]
     elif tagmode == 'local':
         tags = [0] * n
+    elif tagmode == 'ghost':
+        tags = [draw(st.integers(1, 2)) for _ in range(n)]
     consts = {}
     for c in draw(st.lists(st.sampled_from(CPOOL), max_size=2, unique=True)):
-        consts[c] = draw(st.one_of(
-            st.lists(small, min_size=1, max_size=3),
-            st.lists(small, min_size=1, max_size=3).map(
-                lambda l: [v + 0.5 for v in l])))
+        consts[c] = draw(const_value)
     return dict(name='pa%d' % idx, n=n, via=via, props=props, tags=tags,
-                tagdef=draw(st.sampled_from([0, 0, 1, 2])), consts=consts)
+                tagdef=draw(st.sampled_from([0, 0, 1, 2])), consts=consts,
+                cnd=draw(st.booleans()), sys=draw(st.booleans()),
+                bodies=draw(st.integers(0, 3)), salt=draw(st.integers(0, 20)))
 
 
 @st.composite
 def op_strategy(draw):
     name = draw(st.sampled_from(WEIGHTED))
-    op = dict(op=name, a=draw(st.integers(0, 1)))
+    # pos: documented arguments passed by position instead of by keyword
+    op = dict(op=name, a=draw(st.integers(0, 1)),
+              pos=draw(st.integers(0, 3)) == 0)
     i = st.integers(0, 40)
     if name == 'add_particles':
         op.update(k=draw(st.integers(0, 4)), mask=draw(st.integers(0, 255)),
                   salt=draw(i), align=draw(st.booleans()),
                   uid=draw(st.integers(0, 3)) > 0,
-                  tags=draw(st.lists(st.integers(0, 2), max_size=4)))
+                  tags=draw(st.lists(st.integers(0, 2), max_size=4)),
+                  form=draw(st.sampled_from(['list', 'ndarray'])))
     elif name == 'remove_particles':
         op.update(idx=draw(st.lists(i, max_size=6)),
                   form=draw(st.sampled_from(['list', 'ndarray', 'int32',
-                                             'LongArray'])),
+                                             'LongArray', 'arange'])),
                   align=draw(st.booleans()),
                   oob=draw(st.integers(0, 7)) == 0)
     elif name == 'remove_tagged_particles':
         op.update(tag=draw(st.integers(0, 2)), align=draw(st.booleans()))
     elif name == 'extract_particles':
         op.update(idx=draw(st.lists(i, max_size=6)),
-                  form=draw(st.sampled_from(['list', 'ndarray',
-                                             'LongArray'])),
+                  form=draw(st.sampled_from(['list', 'ndarray', 'int32',
+                                             'LongArray', 'arange'])),
                   dest=draw(st.sampled_from(['none', 'none', 'other',
                                              'other', 'self'])),
                   align=draw(st.booleans()),
@@ -158,14 +241,17 @@ def op_strategy(draw):
                   salt=draw(i), k=draw(st.integers(0, 3)),
                   pass_stride=draw(st.booleans()),
                   kw_type=draw(st.booleans()),
-                  readd=draw(st.booleans()))
+                  readd=draw(st.booleans()),
+                  dform=draw(st.sampled_from(['list', 'list', 'ndarray',
+                                              '2d'])),
+                  dhalf=draw(st.booleans()))
     elif name == 'remove_property':
-        op.update(p=draw(i), strided=draw(st.booleans()))
+        op.update(p=draw(i), strided=draw(st.booleans()),
+                  missing=draw(st.integers(0, 7)) == 0)
     elif name == 'add_constant':
         op.update(name=draw(st.integers(0, len(CPOOL) - 1)),
-                  data=draw(st.one_of(
-                      small, small.map(lambda v: v + 0.5),
-                      st.lists(small, min_size=1, max_size=3))))
+                  data=draw(st.one_of(small, const_value)),
+                  nd=draw(st.booleans()))
     elif name == 'set':
         op.update(mask=draw(st.integers(1, 255)), salt=draw(i),
                   attr=draw(st.booleans()), const=draw(st.booleans()))
@@ -184,7 +270,8 @@ def op_strategy(draw):
         op.update(mode=draw(st.sampled_from(['all', 'start', 'range'])),
                   s=draw(i), e=draw(i))
     elif name == 'copy_over_properties':
-        op.update(src=draw(i), dst=draw(i))
+        op.update(src=draw(i), dst=draw(i), src2=draw(i), dst2=draw(i),
+                  pairs=draw(st.integers(1, 2)))
     elif name == 'set_to_zero':
         op.update(mask=draw(st.integers(0, 255)))
     elif name == 'output_arrays':
@@ -194,16 +281,32 @@ def op_strategy(draw):
     elif name == 'ensure_properties':
         op.update(mask=draw(st.one_of(st.none(), st.integers(0, 255))))
     elif name == 'dummy_replica':
-        op.update(adopt=draw(st.booleans()))
+        op.update(adopt=draw(st.booleans()), both=draw(st.booleans()))
     elif name == 'set_pid':
         op.update(pid=draw(small))
+    elif name == 'pickle':
+        op.update(how=draw(st.sampled_from(['pickle', 'pickle', 'proto0',
+                                            'copy', 'deepcopy'])),
+                  keep=draw(st.booleans()))
+    elif name == 'get':
+        op.update(mask=draw(st.integers(0, 255)), strided=draw(st.booleans()),
+                  const=draw(st.booleans()), real=draw(st.booleans()),
+                  attr=draw(st.booleans()))
+    elif name == 'update_min_max':
+        op.update(mask=draw(st.one_of(st.none(), st.integers(0, 255))))
+    elif name == 'set_name':
+        op.update(name=draw(st.integers(0, len(NAMES) - 1)))
+    elif name == 'set_num_real':
+        op.update(v=draw(i))
+    elif name == 'lb_props':
+        op.update(mask=draw(st.one_of(st.none(), st.integers(0, 255))))
     return op
 
 
 @st.composite
-def case_strategy(draw, max_ops):
+def case_strategy(draw, max_ops, fam=None):
     narr = draw(st.sampled_from([1, 2, 2, 2]))
-    arrays = [draw(array_spec(i)) for i in range(narr)]
+    arrays = [draw(array_spec(i, fam)) for i in range(narr)]
     lo = draw(st.sampled_from([1, 4, 8, 16, 24]))
     ops = draw(st.lists(op_strategy(), min_size=min(lo, max_ops),
                         max_size=max_ops))
@@ -244,6 +347,8 @@ class M(object):
         self.aligned = False
         self.exact = True       # order of records defined by the API?
         self.out_claim = True
+        self.const_claim = True
+        self.lb = None          # None: get_lb_props() = all properties
         self.removed_strided = set()
 
     def default_of(self, p):
@@ -322,43 +427,103 @@ class State(object):
         self.labels.add('two_array_op')
 
 
+def flat(v):
+    """A constant as given (scalar, list, nested list) -> flat floats."""
+    if isinstance(v, (list, tuple)):
+        out = []
+        for x in v:
+            out.extend(flat(x))
+        return out
+    return [float(v)]
+
+
+def shaped(typ, form, vals, stride):
+    """The values of one property in the requested container."""
+    import numpy as np
+    if form not in ('ndarray', '2d'):
+        return list(vals)
+    dt = {'double': np.float64, 'float': np.float32, 'int': np.int32,
+          'long': np.int64, 'unsigned int': np.uint32}[typ]
+    arr = np.array(vals, dtype=dt)
+    if form == '2d' and stride > 1 and len(vals):
+        arr = arr.reshape(len(vals) // stride, stride)
+    return arr
+
+
 def build(S, slot, spec):
     import numpy as np
     from pysph.base.particle_array import ParticleArray
-    from pysph.base.utils import get_particle_array
+    from pysph.base import utils
     n = int(spec.get('n', 0))
     via = spec.get('via', 'ctor')
+    if via not in FAMILY and via not in ('ctor', 'add', 'plain'):
+        via = 'ctor'
+    fam = via in FAMILY
     tags = spec.get('tags')
     if tags is not None:
         tags = [int(t) % 3 for t in (list(tags) + [0] * n)[:n]]
-    tagdef = int(spec.get('tagdef', 0)) if via != 'gpa' else 0
-    consts = dict((str(k), [float(x) for x in (v if isinstance(v, list)
-                                                else [v])])
-                  for k, v in (spec.get('consts') or {}).items())
+    tagdef = int(spec.get('tagdef', 0)) if not fam else 0
+    rawc = dict((str(k), v) for k, v in (spec.get('consts') or {}).items())
+    consts = dict((k, flat(v)) for k, v in rawc.items())
     name = str(spec.get('name', 'pa%d' % slot))
     m = M(name, tagdef)
     uids = S.fresh_uids(n)
     props = []
     seen = set()
+    taken = set()
+    if fam:
+        # names the family defines itself (e.g. 'b' of the shallow water
+        # array, 'e' of the gas dynamics one) are not redefined
+        taken = set(S.call(getattr(utils, FAMILY[via]),
+                           name='names').properties)
     for p in spec.get('props', []):
-        if p['name'] in seen or p['name'] in m.props or p['name'] == 'uid':
+        if p['name'] in seen or p['name'] in m.props or p['name'] == 'uid' \
+                or p['name'] in taken:
             continue
         seen.add(p['name'])
         props.append(p)
     data = {}
     for p in props:
         if p.get('data'):
-            data[p['name']] = gen_vals(p['type'], p.get('salt', 0),
-                                       n * p['stride'])
+            vals = gen_vals(p['type'], p.get('salt', 0), n * p['stride'])
+            if p.get('form') == 'bcast' and p['stride'] == 1 and n > 1 \
+                    and via in ('ctor', 'plain'):
+                # the constructor repeats a single value for all particles
+                vals = vals[:1] * n
+                S.labels.add('ctor_broadcast')
+            data[p['name']] = vals
+
+    def given(p):
+        """Values of p in the container the spec asks for."""
+        vals = data[p['name']]
+        form = p.get('form', 'list')
+        if form == 'bcast':
+            return vals[:1] if (p['stride'] == 1 and n > 1 and
+                                via in ('ctor', 'plain')) else list(vals)
+        if form == '2d' and p['stride'] > 1 and vals:
+            S.labels.add('data_2d')
+        return shaped(p['type'], form, vals, p['stride'])
 
     def info(p, with_data=True):
         d = dict(type=p['type'], stride=p['stride'])
         if p.get('default') is not None:
             d['default'] = p['default']
         if with_data and p['name'] in data:
-            d['data'] = list(data[p['name']])
+            d['data'] = given(p)
         return d
-    ckw = dict((k, list(v)) for k, v in consts.items()) or None
+
+    def cval(v):
+        if spec.get('cnd') and isinstance(v, list):
+            return np.array(v)
+        return list(v) if isinstance(v, list) else v
+    ckw = dict((k, cval(v)) for k, v in rawc.items()) or None
+    if any(isinstance(v, list) and v and isinstance(v[0], list)
+           for v in rawc.values()):
+        S.labels.add('const_nested')
+    if any(not isinstance(v, list) for v in rawc.values()):
+        S.labels.add('const_scalar')
+    if any(len(v) > 3 for v in consts.values()):
+        S.labels.add('const_long')
     if via == 'ctor':
         kw = dict((p['name'], info(p)) for p in props)
         kw['uid'] = dict(type='long', default=-1, data=list(uids))
@@ -366,10 +531,29 @@ def build(S, slot, spec):
             kw['tag'] = dict(type='int', data=list(tags))
         pa = S.call(ParticleArray, name=name, default_particle_tag=tagdef,
                     constants=ckw, **kw)
+    elif via == 'plain':
+        # the documented short form ParticleArray(name=..., x=[...]): a
+        # plain sequence is a double property of stride 1 with default 0
+        kw = {}
+        nplain = 0
+        for p in props:
+            if (p['type'] == 'double' and p['stride'] == 1 and
+                    p.get('default') is None and p['name'] in data and n):
+                kw[p['name']] = given(p)
+                nplain += 1
+            else:
+                kw[p['name']] = info(p)
+        kw['uid'] = dict(type='long', default=-1, data=list(uids))
+        if tags is not None:
+            kw['tag'] = dict(type='int', data=list(tags))
+        if nplain:
+            S.labels.add('ctor_plain')
+        pa = S.call(ParticleArray, name=name, default_particle_tag=tagdef,
+                    constants=ckw, **kw)
     elif via == 'add':
         pa = S.call(ParticleArray, name=name, default_particle_tag=tagdef)
-        for k, v in consts.items():
-            S.call(pa.add_constant, k, list(v))
+        for k, v in rawc.items():
+            S.call(pa.add_constant, k, cval(v))
         S.call(pa.add_property, 'uid', type='long', default=-1,
                data=list(uids))
         if tags is not None:
@@ -378,28 +562,90 @@ def build(S, slot, spec):
             S.call(pa.add_property, p['name'], **info(p))
         S.call(pa.align_particles)
     else:
+        fn = getattr(utils, FAMILY[via])
         plain = [p for p in props if p['type'] == 'double' and
                  p['stride'] == 1 and p.get('default') is None]
-        kw = dict((p['name'], list(data[p['name']])) for p in plain
+        kw = dict((p['name'], given(p)) for p in plain
                   if p['name'] in data)
-        kw['x'] = gen_vals('double', 5, n)
+        salt = int(spec.get('salt', 0))
+        data['x'] = gen_vals('double', 5, n)
+        data['h'] = gen_vals('double', 8 + salt, n)
+        kw['x'] = list(data['x'])
+        kw['h'] = np.array(data['h'])
+        sysp = bool(spec.get('sys')) and n > 0
+        if sysp:
+            # tag / pid / gid have their own branches in get_particle_array
+            data['pid'] = [(salt + i) % 4 for i in range(n)]
+            data['gid'] = [(salt + 3 * i) % 50 for i in range(n)]
+            kw['pid'] = list(data['pid'])
+            kw['gid'] = list(data['gid'])
+            if tags is not None and via != 'gasd':
+                # (gasd copies h to h0 through the real-particle views, so
+                # its tags are written afterwards)
+                kw['tag'] = list(tags)
+            S.labels.add('family_sys_props')
         extra = [p['name'] for p in plain if p['name'] not in data]
-        pa = S.call(get_particle_array, name=name, constants=ckw,
-                    additional_props=extra or None, **kw)
+        if via == 'gpa':
+            kw['additional_props'] = extra or None
+            extra = []
+        nb = int(spec.get('bodies', 0))
+        if via == 'rigid' and nb and n:
+            data['body_id'] = [(salt + i) % nb for i in range(n)]
+            kw['body_id'] = list(data['body_id'])
+            if 'tag' in kw and any(kw['tag']):
+                S.labels.add('rigid_body_id_with_tags')
+        pa = S.call(fn, name=name, constants=ckw, **kw)
+        perm = list(range(n))
+        if 'tag' in kw:
+            # the constructor inside has aligned the particles; values
+            # added from here on follow the new order (x is unique)
+            xs = S.call(pa.get, 'x', only_real_particles=False).tolist()
+            if sorted(xs) != sorted(data['x']):
+                S.fail('records', '%s(x=%r, tag=%r) holds x = %r' % (
+                    FAMILY[via], data['x'], tags, xs), what='multiset',
+                    expected=data['x'], observed=xs)
+            perm = [data['x'].index(v) for v in xs]
         S.call(pa.add_property, 'uid', type='long', default=-1,
-               data=list(uids))
+               data=[uids[j] for j in perm])
+        for q in extra:
+            S.call(pa.add_property, q)
         for p in props:
             if p not in plain:
-                S.call(pa.add_property, p['name'], **info(p))
-        if tags is not None:
+                d = info(p, with_data=False)
+                if p['name'] in data:
+                    ch = chunks(data[p['name']], p['stride'])
+                    d['data'] = shaped(
+                        p['type'], p.get('form'),
+                        [v for j in perm for v in ch[j]], p['stride'])
+                S.call(pa.add_property, p['name'], **d)
+        if tags is not None and 'tag' not in kw:
             # the constructor inside get_particle_array aligns, so tags are
             # written afterwards (documented direct view), then aligned
             S.call(pa.get, 'tag', only_real_particles=False)[:] = tags
         S.call(pa.align_particles)
-        for q in GPA_DEFAULT:
-            m.props[q] = ['double', 1, 0]
+        # the model takes the property list of the family from the array;
+        # types / strides / defaults are what get_particle_array documents
+        have = set(pa.properties)
+        miss = sorted(set(GPA_DEFAULT) - have)
+        if miss:
+            S.fail('bookkeeping', '%s() lacks the default properties %s' % (
+                FAMILY[via], miss), what='family_props')
+        for q in sorted(have):
+            if q in m.props or q == 'uid' or q in seen:
+                continue
+            m.props[q] = ['int' if q in FAMILY_INT else 'double', 1, 0]
+        m.out_claim = via == 'gpa'
         m.out = list(GPA_OUT)
-        data['x'] = kw['x']
+        if via == 'gasd':
+            # documented in get_particle_array_gasd: h0 starts as h
+            data['h0'] = list(data['h'])
+        # constants the family adds on its own are adopted as found
+        for c in pa.constants:
+            if c not in consts:
+                consts[c] = [float(v) for v in
+                             pa.constants[c].get_npy_array().tolist()]
+        if via != 'gpa':
+            S.labels.add('via:family')
     m.props['uid'] = ['long', 1, -1]
     for p in props:
         m.props[p['name']] = [p['type'], p['stride'],
@@ -412,6 +658,9 @@ def build(S, slot, spec):
         if tags is not None:
             r['tag'] = (tags[i],)
         for q, vals in data.items():
+            if q not in m.props:
+                S.fail('bookkeeping', 'array %s lacks property %r' % (
+                    name, q), what='family_props')
             s = m.props[q][1]
             r[q] = m.cast(q, vals[i * s:(i + 1) * s])
         m.recs.append(r)
@@ -423,8 +672,13 @@ def build(S, slot, spec):
         S.labels.add('zero_particles')
     if tags is not None and len(set(tags)) > 1:
         S.labels.add('mixed_tags')
+    if n and tags is not None and 0 not in tags:
+        S.labels.add('no_local')
     if any(p['type'] != 'double' for p in props):
         S.labels.add('non_double')
+    if any(p.get('default') is not None and p['default'] != int(p['default'])
+           for p in props):
+        S.labels.add('default_fractional')
     S.labels.add('via:' + via)
 
 
@@ -503,6 +757,12 @@ def check_array(S, slot, pa=None, m=None):
     if pa.name != m.name:
         S.fail('bookkeeping', 'name %r, model %r' % (pa.name, m.name),
                what='name')
+    lb = pa.get_lb_props()
+    wl = sorted(m.props) if m.lb is None else sorted(m.lb)
+    if not isinstance(lb, list) or sorted(lb) != wl:
+        S.fail('bookkeeping', 'array %s: get_lb_props() = %r, expected %r '
+               '(%s)' % (m.name, lb, wl, 'all properties' if m.lb is None
+                         else 'as set'), what='lb_props')
     # ---- records
     recs = read_records(S, pa, m)
     names = sorted(m.props)
@@ -534,6 +794,11 @@ def check_array(S, slot, pa=None, m=None):
         m.recs = recs
         m.exact = True
     # ---- constants
+    if not m.const_claim:
+        m.consts = dict(
+            (c, [float(v) for v in a.get_npy_array().tolist()])
+            for c, a in pa.constants.items())
+        m.const_claim = True
     if set(pa.constants) != set(m.consts):
         S.fail('constants', 'array %s: constants %s, model %s' % (
             m.name, sorted(pa.constants), sorted(m.consts)), what='names')
@@ -604,6 +869,15 @@ def as_indices(form, idx):
         return np.array(idx, dtype=np.int64)
     if form == 'int32':
         return np.array(idx, dtype=np.int32)
+    if form == 'arange':
+        # a contiguous block.  utils.arange_long would be the helper for
+        # this, but it raises AttributeError for every non-empty range on
+        # the unchanged tree (it writes LongArray.data from Python; reported
+        # by the audit), so the block is filled by hand
+        la = LongArray(len(idx))
+        for i, v in enumerate(idx):
+            la[i] = v
+        return la
     if form == 'LongArray':
         la = LongArray(len(idx))
         for i, v in enumerate(idx):
@@ -665,8 +939,12 @@ def op_add_particles(S, op, a, b):
         return
     data = dict((p, prop_vals(S, m, p, op.get('salt', 0), k, op.get('tags')))
                 for p in chosen)
+    form = op.get('form', 'list')
+    if form == 'ndarray':
+        S.labels.add('add_particles_ndarray')
     S.call(pa.add_particles, align=align, **dict(
-        (p, list(v)) for p, v in data.items()))
+        (p, shaped(m.props[p][0], form, v, m.props[p][1]))
+        for p, v in data.items()))
     n = len(m.recs)
     for i in range(k):
         m.recs.append(m.default_rec())
@@ -683,14 +961,25 @@ def op_remove_particles(S, op, a, b):
     pa, m = S.real[a], S.model[a]
     n = len(m.recs)
     idx = uniq_mod(op.get('idx'), n)
+    if op.get('form') == 'arange' and idx:
+        # utils.arange_long: a contiguous block of indices
+        idx = list(range(min(idx), max(idx) + 1))
+        S.labels.add('index_block')
     call_idx = list(idx)
     S.variant = str(op.get('form', 'list'))
-    if op.get('oob') and len(call_idx) + 1 <= n:
+    if op.get('form') == 'arange':
+        pass
+    elif op.get('oob') and len(call_idx) + 1 <= n:
         call_idx.append(n + 1)
         S.variant += '+oob'
     align = bool(op.get('align', True))
-    S.call(pa.remove_particles, as_indices(op.get('form'), call_idx),
-           align=align)
+    if op.get('pos'):
+        S.labels.add('positional')
+        S.call(pa.remove_particles, as_indices(op.get('form'), call_idx),
+               align)
+    else:
+        S.call(pa.remove_particles, as_indices(op.get('form'), call_idx),
+               align=align)
     gone = set(idx)
     m.recs = [r for i, r in enumerate(m.recs) if i not in gone]
     m.exact = False
@@ -708,7 +997,11 @@ def op_remove_tagged_particles(S, op, a, b):
     align = bool(op.get('align', True))
     found = [i for i, r in enumerate(m.recs) if r['tag'][0] == tag]
     S.variant = 'tag%d' % tag
-    S.call(pa.remove_tagged_particles, tag, align=align)
+    if op.get('pos'):
+        S.labels.add('positional')
+        S.call(pa.remove_tagged_particles, tag, align)
+    else:
+        S.call(pa.remove_tagged_particles, tag, align=align)
     m.recs = [r for r in m.recs if r['tag'][0] != tag]
     m.exact = False
     if found:
@@ -719,6 +1012,9 @@ def op_remove_tagged_particles(S, op, a, b):
 def op_extract_particles(S, op, a, b):
     pa, m = S.real[a], S.model[a]
     idx = uniq_mod(op.get('idx'), len(m.recs))
+    if op.get('form') == 'arange' and idx:
+        idx = list(range(min(idx), max(idx) + 1))
+        S.labels.add('index_block')
     align = bool(op.get('align', True))
     dest = op.get('dest', 'none')
     if dest == 'other' and b is None:
@@ -735,9 +1031,16 @@ def op_extract_particles(S, op, a, b):
             plist = ok
     S.variant = '%s,%s,%s' % (dest, 'all' if plist is None else 'props',
                               'align' if align else 'noalign')
-    res = S.call(pa.extract_particles, as_indices(op.get('form'), idx),
-                 dest_array=None if d is None else S.real[d], align=align,
-                 props=None if plist is None else list(plist))
+    if op.get('pos'):
+        S.labels.add('positional')
+        res = S.call(pa.extract_particles, as_indices(op.get('form'), idx),
+                     None if d is None else S.real[d], align,
+                     None if plist is None else list(plist))
+    else:
+        res = S.call(pa.extract_particles, as_indices(op.get('form'), idx),
+                     dest_array=None if d is None else S.real[d],
+                     align=align,
+                     props=None if plist is None else list(plist))
     names = list(m.props) if plist is None else plist
     if d is None:
         C = clone_model(m, plist)
@@ -779,8 +1082,12 @@ def op_append_parray(S, op, a, b):
     differ = set(D.props) != set(Sm.props)
     S.variant = '%s%s' % ('differ' if differ else 'same',
                           ',empty' if not Sm.recs else '')
-    S.call(S.real[a].append_parray, S.real[b], align=align,
-           update_constants=uc)
+    if op.get('pos'):
+        S.labels.add('positional')
+        S.call(S.real[a].append_parray, S.real[b], align, uc)
+    else:
+        S.call(S.real[a].append_parray, S.real[b], align=align,
+               update_constants=uc)
     S.two()
     if not Sm.recs:
         return
@@ -871,6 +1178,9 @@ def op_add_property(S, op, a, b):
         if nm in ('pid', 'gid'):
             # system properties keep their documented type
             t, s = ('int' if nm == 'pid' else 'unsigned int'), 1
+    if dflt is not None and op.get('dhalf') and t in FLOATY:
+        dflt = int(dflt) + 0.5
+        S.labels.add('default_fractional')
     kw = {}
     if op.get('kw_type', True) or (not exists and t != 'double'):
         kw['type'] = t
@@ -894,14 +1204,22 @@ def op_add_property(S, op, a, b):
             cnt = grow = int(op.get('k', 0))
         vals = ([(salt + i) % 3 for i in range(cnt)] if nm == 'tag'
                 else gen_vals(t, salt, cnt * s))
-        kw['data'] = list(vals)
+        dform = op.get('dform', 'list')
+        kw['data'] = shaped(t, dform, vals, s)
+        if dform == '2d' and s > 1 and vals:
+            S.labels.add('data_2d')
     elif mode == 'scalar':
         kw['data'] = conv(t, salt % 3 if nm == 'tag' else salt % 10)
     elif mode == 'empty':
         kw['data'] = []
     S.variant = '%s,%s%s' % ('existing' if exists else 'new', mode,
                              ',grow' if grow else '')
-    S.call(pa.add_property, nm, **kw)
+    if op.get('pos') and not declare_only:
+        # add_property(name, type, default, data, stride)
+        S.labels.add('positional')
+        S.call(pa.add_property, nm, t, kw.get('default'), kw.get('data'), s)
+    else:
+        S.call(pa.add_property, nm, **kw)
     if exists:
         S.labels.add('add_property_existing')
         if dflt is not None:
@@ -930,6 +1248,12 @@ def op_add_property(S, op, a, b):
 
 def op_remove_property(S, op, a, b):
     pa, m = S.real[a], S.model[a]
+    if op.get('missing'):
+        # a name that is not a property: nothing may change
+        S.variant = 'missing'
+        S.call(pa.remove_property, 'no_such_prop')
+        S.labels.add('remove_property_missing')
+        return
     cand = m.names(skip=PROTECTED)
     if not cand:
         raise Skip()
@@ -951,8 +1275,16 @@ def op_remove_property(S, op, a, b):
 
 def op_add_constant(S, op, a, b):
     pa, m = S.real[a], S.model[a]
+    import numpy as np
     nm = CPOOL[int(op.get('name', 0)) % len(CPOOL)]
     data = op.get('data', 0)
+    vals = flat(data)
+    if isinstance(data, list) and data and isinstance(data[0], list):
+        S.labels.add('const_nested')
+    if len(vals) > 3:
+        S.labels.add('const_long')
+    if op.get('nd') and isinstance(data, list):
+        data = np.array(data)
     if nm in m.consts:
         S.variant = 'existing'
         try:
@@ -963,8 +1295,7 @@ def op_add_constant(S, op, a, b):
                'raise the documented RuntimeError')
     S.variant = 'new'
     S.call(pa.add_constant, nm, data)
-    m.consts[nm] = [float(v) for v in (data if isinstance(data, list)
-                                       else [data])]
+    m.consts[nm] = vals
 
 
 def op_set(S, op, a, b):
@@ -1049,8 +1380,11 @@ def op_empty_clone(S, op, a, b):
     mask = op.get('mask')
     plist = None if mask is None else subset(m.names(), mask)
     S.variant = 'all' if plist is None else 'props'
-    res = S.call(pa.empty_clone, props=None if plist is None
-                 else list(plist))
+    if op.get('pos'):
+        res = S.call(pa.empty_clone, None if plist is None else list(plist))
+    else:
+        res = S.call(pa.empty_clone, props=None if plist is None
+                     else list(plist))
     C = clone_model(m, plist)
     check_array(S, None, res, C)
     if op.get('adopt'):
@@ -1096,17 +1430,31 @@ def op_copy_properties(S, op, a, b):
 def op_copy_over_properties(S, op, a, b):
     pa, m = S.real[a], S.model[a]
     dbl = [p for p in m.names() if m.props[p][0] == 'double']
-    if not dbl:
+    pairs = {}
+    for ks, kd in (('src', 'dst'), ('src2', 'dst2'))[:int(op.get('pairs',
+                                                               1))]:
+        # sources and destinations are kept disjoint: the result does not
+        # depend on the order in which the pairs are copied
+        free = [p for p in dbl if p not in pairs and
+                p not in pairs.values()]
+        if not free:
+            break
+        src = free[int(op.get(ks, 0)) % len(free)]
+        dsts = [p for p in free if p != src and
+                m.props[p][1] == m.props[src][1]]
+        if not dsts:
+            continue
+        pairs[src] = dsts[int(op.get(kd, 0)) % len(dsts)]
+    if not pairs:
         raise Skip()
-    src = dbl[int(op.get('src', 0)) % len(dbl)]
-    dsts = [p for p in dbl if p != src and m.props[p][1] == m.props[src][1]]
-    if not dsts:
-        raise Skip()
-    dst = dsts[int(op.get('dst', 0)) % len(dsts)]
-    S.variant = 'stride>1' if m.props[src][1] > 1 else 'stride1'
-    S.call(pa.copy_over_properties, {src: dst})
+    S.variant = 'stride>1' if any(m.props[p][1] > 1 for p in pairs) \
+        else 'stride1'
+    if len(pairs) > 1:
+        S.labels.add('copy_over_two_pairs')
+    S.call(pa.copy_over_properties, dict(pairs))
     for r in m.recs:
-        r[dst] = r[src]
+        for src, dst in pairs.items():
+            r[dst] = r[src]
 
 
 def op_set_to_zero(S, op, a, b):
@@ -1125,12 +1473,31 @@ def op_set_to_zero(S, op, a, b):
 def op_pickle(S, op, a, b):
     import copy
     pa, m = S.real[a], S.model[a]
-    res = S.call(lambda: pickle.loads(pickle.dumps(pa)))
+    how = op.get('how', 'pickle')
+    S.variant = how
+    if how == 'copy':
+        res = S.call(copy.copy, pa)
+    elif how == 'deepcopy':
+        res = S.call(copy.deepcopy, pa)
+    elif how == 'proto0':
+        res = S.call(lambda: pickle.loads(pickle.dumps(pa, 0)))
+    else:
+        res = S.call(lambda: pickle.loads(pickle.dumps(pa)))
     C = copy.deepcopy(m)
     C.out_claim = False
-    S.real[a], S.model[a] = res, C
+    C.lb = None
+    if op.get('keep') and a == 0:
+        # the original stays alive next to its copy: a later change of one
+        # must not show in the other
+        S.real[1], S.model[1] = res, C
+        S.labels.add('copy_kept')
+        S.labels.add('two_arrays')
+    else:
+        S.real[a], S.model[a] = res, C
     S.nontrivial = True
     S.labels.add('pickle')
+    if how in ('copy', 'deepcopy'):
+        S.labels.add('copy_module')
 
 
 def op_output_arrays(S, op, a, b):
@@ -1152,7 +1519,11 @@ def op_get_property_arrays(S, op, a, b):
     real = bool(op.get('real', True))
     S.variant = '%s,%s' % ('all' if al else 'output',
                            'real' if real else 'everything')
-    d = S.call(pa.get_property_arrays, all=al, only_real=real)
+    if op.get('pos'):
+        S.labels.add('positional')
+        d = S.call(pa.get_property_arrays, al, real)
+    else:
+        d = S.call(pa.get_property_arrays, all=al, only_real=real)
     want = list(m.props) if (al or not m.out) else list(m.out)
     if set(d) != set(want):
         S.fail('return', 'get_property_arrays returned %s, expected %s' % (
@@ -1191,15 +1562,26 @@ def op_dummy_replica(S, op, a, b):
     with the same properties, types, strides, defaults and constants."""
     from pysph.base.utils import get_particles_info, create_dummy_particles
     pa, m = S.real[a], S.model[a]
-    info = S.call(get_particles_info, [pa])
+    src = [(pa, m)]
+    if op.get('both') and b is not None and S.model[b].name != m.name:
+        # the info is keyed by array name
+        src.append((S.real[b], S.model[b]))
+        S.labels.add('dummy_two_arrays')
+    S.variant = 'one' if len(src) == 1 else 'two'
+    info = S.call(get_particles_info, [x[0] for x in src])
     res = S.call(create_dummy_particles, info)
-    if len(res) != 1:
-        S.fail('return', 'create_dummy_particles returned %d arrays'
-               % len(res))
-    C = clone_model(m, None)
-    check_array(S, None, res[0], C)
+    if len(res) != len(src):
+        S.fail('return', 'create_dummy_particles returned %d arrays for %d'
+               % (len(res), len(src)))
+    first = None
+    for (p0, m0), r in zip(src, res):
+        C = clone_model(m0, None)
+        C.lb = sorted(m0.props) if m0.lb is None else list(m0.lb)
+        check_array(S, None, r, C)
+        if first is None:
+            first = (r, C)
     if op.get('adopt'):
-        S.real[1], S.model[1] = res[0], C
+        S.real[1], S.model[1] = first
         S.labels.add('adopt_dummy')
 
 
@@ -1213,6 +1595,138 @@ def op_set_pid(S, op, a, b):
         r['pid'] = (v,)
     if not S.call(pa.has_array, 'pid') or S.call(pa.has_array, 'nope'):
         S.fail('return', 'has_array is wrong')
+
+
+def op_clear(S, op, a, b):
+    pa, m = S.real[a], S.model[a]
+    strided = [p for p in m.props if m.props[p][1] > 1]
+    listed = [p for p in m.out if p not in ('tag', 'pid', 'gid')]
+    if strided or listed:
+        S.labels.add('clear_with_strided_or_listed')
+    S.variant = 'n=0' if not m.recs else 'n>0'
+    had = len(m.recs)
+    S.call(pa.clear)
+    tagdef = m.props['tag'][2]
+    # documented in clear(): tag, pid, gid remain, without particles; the
+    # default tag of the array is kept
+    m.props = {'tag': ['int', 1, tagdef], 'pid': ['int', 1, 0],
+               'gid': ['unsigned int', 1, UINT_MAX]}
+    m.recs = []
+    m.out = [p for p in m.out if p in m.props]
+    # "all data": whether constants / the output list / the load balancing
+    # list count as data is not said - adopted as found
+    m.const_claim = False
+    m.out_claim = False
+    if m.lb is not None:
+        m.lb = list(pa.get_lb_props())
+    m.aligned = False
+    # the harness identity property goes back in at once (as at the start)
+    S.call(pa.add_property, 'uid', type='long', default=-1)
+    m.props['uid'] = ['long', 1, -1]
+    S.struct_seen = True
+    if had:
+        S.size_change()
+
+
+def op_get(S, op, a, b):
+    """get(*names, only_real_particles=...) and attribute access."""
+    pa, m = S.real[a], S.model[a]
+    names = m.names()
+    if op.get('strided'):
+        names = [p for p in names if m.props[p][1] > 1] or names
+    chosen = subset(names, op.get('mask', 1))[:3] or names[:1]
+    real = bool(op.get('real')) and m.aligned
+    num = m.nlocal() if real else len(m.recs)
+    want = [[x for r in m.recs[:num] for x in r[p]] for p in chosen]
+    if op.get('const') and m.consts:
+        c = sorted(m.consts)[int(op.get('mask', 0)) % len(m.consts)]
+        chosen = chosen + [c]
+        want.append([float(v) for v in m.consts[c]])
+    if op.get('attr') and real:
+        S.variant = 'attr'
+        got = [S.call(getattr, pa, p) for p in chosen]
+    else:
+        S.variant = 'get,%s,%s' % ('real' if real else 'all',
+                                   'one' if len(chosen) == 1 else 'many')
+        got = S.call(pa.get, *chosen, only_real_particles=real)
+        if len(chosen) == 1:
+            got = [got]
+        elif not isinstance(got, tuple) or len(got) != len(chosen):
+            S.fail('return', 'get%r did not return a tuple of %d arrays'
+                   % (tuple(chosen), len(chosen)), what='tuple')
+        else:
+            S.labels.add('get_multi')
+    for p, g, w in zip(chosen, got, want):
+        g = [float(v) for v in g.tolist()]
+        w = [float(v) for v in w]
+        if g != w:
+            S.fail('return', '%s of %r (%s particles) = %r, expected %r' % (
+                S.variant, p, 'real' if real else 'all', g, w),
+                what='strided' if m.props.get(p, [0, 1])[1] > 1
+                else 'stride1', expected=w, observed=g)
+        if real and p in m.props and m.props[p][1] > 1:
+            S.labels.add('get_strided_real')
+    # get_carray serves properties and constants alike
+    for p in chosen:
+        ca = S.call(pa.get_carray, p)
+        if ca is not (pa.properties.get(p) if p in m.props
+                      else pa.constants.get(p)):
+            S.fail('return', 'get_carray(%r) is not the stored array' % p,
+                   what='get_carray')
+
+
+def op_update_min_max(S, op, a, b):
+    pa, m = S.real[a], S.model[a]
+    mask = op.get('mask')
+    plist = None if mask is None else subset(m.names(), mask)
+    S.variant = 'all' if not plist else 'props'
+    if plist is None:
+        S.call(pa.update_min_max)
+    else:
+        S.call(pa.update_min_max, list(plist))
+    if not m.recs:
+        return          # minimum / maximum of nothing: no claim
+    for p in (plist or m.names()):
+        vals = [float(x) for r in m.recs for x in r[p]]
+        ca = pa.properties[p]
+        got = (float(ca.minimum), float(ca.maximum))
+        if got != (min(vals), max(vals)):
+            S.fail('return', 'after update_min_max %r has (min, max) = %r, '
+                   'its values span %r' % (p, got, (min(vals), max(vals))),
+                   what='strided' if m.props[p][1] > 1 else 'stride1',
+                   expected=[min(vals), max(vals)], observed=list(got))
+
+
+def op_set_name(S, op, a, b):
+    pa, m = S.real[a], S.model[a]
+    nm = NAMES[int(op.get('name', 0)) % len(NAMES)]
+    S.call(pa.set_name, nm)
+    m.name = nm
+    S.labels.add('renamed')
+
+
+def op_set_num_real(S, op, a, b):
+    pa, m = S.real[a], S.model[a]
+    v = int(op.get('v', 0)) % (len(m.recs) + 1)
+    S.call(pa.set_num_real_particles, v)
+    if pa.num_real_particles != v or pa.get_number_of_particles(True) != v:
+        S.fail('return', 'set_num_real_particles(%d) gives %d' % (
+            v, pa.num_real_particles))
+    if len(S.call(pa.get, 'tag')) != v:
+        S.fail('return', 'get() returns %d values for %d real particles' % (
+            len(pa.get('tag')), v), what='get_real')
+    # the count now is what the caller said, not what the tags say
+    m.aligned = False
+
+
+def op_lb_props(S, op, a, b):
+    pa, m = S.real[a], S.model[a]
+    mask = op.get('mask')
+    if mask is None:
+        raise Skip()    # checked after every operation in check_array
+    plist = subset(m.names(), mask)
+    S.call(pa.set_lb_props, list(plist))
+    m.lb = list(plist)
 
 
 DISPATCH = dict((n, globals()['op_' + n]) for n in OPS)
@@ -1260,16 +1774,18 @@ def execute(case):
 
 def plan(ctx):
     quick = ctx['tier'] == 'quick'
-    total = 640 if quick else 30000
+    total = 1280 if quick else 30000
     k = 16
+    fams = sorted(f for f in FAMILY if f != 'gpa')
     return [dict(name='seq-%02d' % i, max_examples=(total + k - 1) // k,
-                 max_ops=30 if quick else 60, component='ParticleArray')
+                 max_ops=30 if quick else 60, component='ParticleArray',
+                 family=fams[i % len(fams)])
             for i in range(k)]
 
 
 def run_shard(spec, ctx):
     stats = Stats()
-    search(case_strategy(spec['max_ops']), execute,
+    search(case_strategy(spec['max_ops'], spec.get('family')), execute,
            derive_seed(ctx.seed, 'C06', spec['name']),
            spec['max_examples'], stats, shrink=True, journal=ctx.journal)
     return stats.result()
